@@ -176,6 +176,28 @@ def check_generated(rng):
                 if kind == 'other':
                     return {'lines': [l.hex() for l in cut], 'ignore': False,
                             'error': 'early end: %r' % (res,)}
+    # (d) one changed line attributed to the wrong side: the hunk then has
+    # one line too many on one side and one too few on the other; it can
+    # never complete, so the next header (or the end of input) must be
+    # reported - never a silently accepted hunk
+    flip_idx = [i for i in body_idx if lines[i][:1] in (b'+', b'-')]
+    if flip_idx:
+        i = rng.choice(flip_idx)
+        other = b'-' if lines[i][:1] == b'+' else b'+'
+        bad = lines[:i] + [other + lines[i][1:]] + lines[i + 1:]
+        nxt = [j for j in hdr_idx if j > i]
+        for ig in (True, False):
+            kind, res = run(bad, ig)
+            if kind != 'malformed':
+                return {'lines': [l.hex() for l in bad], 'ignore': ig,
+                        'error': 'changed line on the wrong side: %s, '
+                                 'expected MalformedHunkError (hunk cannot '
+                                 'complete)' % kind}
+            if nxt and res != (bad[nxt[0]], nxt[0] + 1):
+                return {'lines': [l.hex() for l in bad], 'ignore': ig,
+                        'error': 'changed line on the wrong side: error at '
+                                 '%r, expected at the interrupting header '
+                                 'line %d' % (res, nxt[0] + 1)}
     if len(hdr_idx) > 1:
         # (c) a header interrupting the previous hunk: drop the line before
         i = hdr_idx[1]
